@@ -28,11 +28,12 @@ type Call struct {
 }
 
 type Beh struct {
-	ID   int     `json:"id"`
-	Src  string  `json:"src"`
-	Fx   int     `json:"fx"`
-	Init jl.Node `json:"init"`
-	Hist []Call  `json:"hist"`
+	ID   int      `json:"id"`
+	Src  string   `json:"src"`
+	Fx   int      `json:"fx"`
+	Init jl.Node  `json:"init"`
+	Hist []Call   `json:"hist"`
+	Fl   []string `json:"fl,omitempty"` // further flavours to replay (mut2.go), besides simple / gen / keyed
 }
 
 type stepObs struct {
@@ -50,6 +51,7 @@ type stepLine struct {
 	Fx  int       `json:"fx"`
 	M   Call      `json:"m"`
 	PS  string    `json:"ps"`
+	Fl  []string  `json:"fl,omitempty"`
 	O   []stepObs `json:"o"`
 }
 
@@ -84,6 +86,7 @@ func calls(path []jl.Frag, ops []string, rich bool) []Call {
 func mutMatrix(args []string) {
 	fs := flag.NewFlagSet("mutmatrix", flag.ExitOnError)
 	full := fs.Bool("full", false, "thorough parameter sets")
+	cellsFile := fs.String("cells", "", "cell table emitted by TLC from JsonPathStoreCells (ndjson): the representation / modifier-class family of mut2.go")
 	fs.Parse(args)
 	out := bufio.NewWriterSize(os.Stdout, 1<<20)
 	defer out.Flush()
@@ -93,6 +96,30 @@ func mutMatrix(args []string) {
 		b, _ := json.Marshal(Beh{ID: id, Src: "matrix", Fx: fx, Init: init, Hist: []Call{c}})
 		out.Write(b)
 		out.WriteByte('\n')
+	}
+	if *cellsFile != "" {
+		var cells []cell
+		fh, err := os.Open(*cellsFile)
+		if err != nil {
+			panic(err)
+		}
+		sc := bufio.NewScanner(fh)
+		for sc.Scan() {
+			var c cell
+			if err := json.Unmarshal(sc.Bytes(), &c); err != nil {
+				panic(err)
+			}
+			cells = append(cells, c)
+		}
+		fh.Close()
+		cellBehs(cells, func(b Beh) {
+			id++
+			b.ID = id
+			bb, _ := json.Marshal(b)
+			out.Write(bb)
+			out.WriteByte('\n')
+		})
+		return
 	}
 	A := jl.Absent
 	bounds := []int{-5, -1, 0, 1, 2, 5, A}
@@ -425,7 +452,7 @@ func apply(c Call, data any, flavour string) (root any, r string, msg string) {
 			}
 		}
 	}()
-	x := jl.Expr(c.Path)
+	x := exprOf(c.Path)
 	var err error
 	var val any
 	if c.V != nil {
@@ -467,6 +494,9 @@ func modFor(md jl.Node, flavour string) func(any) (any, bool) {
 	if md["m"] == "foreign" {
 		return applyMod(md)
 	}
+	if k, _ := md["m"].(string); k == "trunc" || k == "grow" || k == "mapset" {
+		return nativeMod(k)
+	}
 	return genMod(applyMod(md), flavour)
 }
 
@@ -501,9 +531,10 @@ func runBeh(b *Beh) []stepLine {
 	if os.Getenv("VERIF_MUT_KEYED") != "0" {
 		flavours = append(flavours, "keyed")
 	}
+	flavours = append(flavours, b.Fl...)
 	datas := make([]any, len(flavours))
 	for i, fl := range flavours {
-		datas[i], _ = jl.Build(fl, b.Init)
+		datas[i] = buildFl(fl, b.Init)
 	}
 	maxLen := 8
 	for k, c := range b.Hist {
@@ -515,9 +546,9 @@ func runBeh(b *Beh) []stepLine {
 		ps := ""
 		func() {
 			defer func() { recover() }()
-			ps = jl.Expr(c.Path).String()
+			ps = exprOf(c.Path).String()
 		}()
-		ln := stepLine{B: b.ID, K: k + 1, Src: b.Src, Fx: b.Fx, M: c, PS: ps}
+		ln := stepLine{B: b.ID, K: k + 1, Src: b.Src, Fx: b.Fx, M: c, PS: ps, Fl: b.Fl}
 		if c.Fx > 0 {
 			ln.Fx = c.Fx
 		}
@@ -528,7 +559,7 @@ func runBeh(b *Beh) []stepLine {
 			if c.V != nil && (jl.IsArr(c.V) || jl.IsObj(c.V)) {
 				// Set stores the one container value at every selected location; rebuild the document so that this
 				// sharing (ordinary Go aliasing, not a property of the path code) does not leak into the next call
-				datas[i], _ = jl.Build(fl, jl.Project(root))
+				datas[i] = buildFl(fl, jl.Project(root))
 			}
 			o := stepObs{As: []string{fl}, Before: before, R: r, After: jl.Project(root), Msg: msg}
 			merged := false
